@@ -25,12 +25,14 @@ def run(model, res, tier):
     res.rule('R3', 'whole row/column/array on 0 or omitted; addressed element otherwise (instance shapes)')
     res.rule('R4', 'MATCH type 0: case-insensitive wildcard roles, first hit, #N/A')
     res.rule('R5', 'no cache or shared state')
+    res.rule('R6', 'MATCH type 1 on an ascending / type -1 on a descending array: the position of the largest item <= x / smallest item >= x, #N/A when there is none - on all 7 order types of x against three distinct items')
     res.trusted += ['hxsa abstract interpreter with integer linear forms', 'CPython ast']
     em, singles = error_singletons(model)
     E = dict((msg, n) for n, msg in singles.items())
     _r1_r2(model, res)
     _r3(model, res)
     _r4(model, res, E)
+    _match_sorted(model, res, E)
     keys = []
     for n in ('INDEX', 'CHOOSE', 'MATCH'):
         m, f = model.registered(n)
@@ -98,6 +100,68 @@ def _r1_r2(model, res):
                                   '%s (%s): when a position is beyond the array the function returns %r instead of an error' % (name, label, o.value),
                                   case={'case': label}, func=f.name)
     res.floor('position-derived subscripts examined', n_ev, 8)
+
+
+def _match_sorted(model, res, E):
+    """Complete finite quotient: three distinct items in the stated order and x in each of the 7 positions relative to them.  Every trace
+    of MATCH whose comparison decisions are consistent with a position must return the position the statement names."""
+    m, f = model.registered('MATCH')
+    NA = E['#N/A']
+    n = 0
+    for mt, label in ((1, 'ascending, type 1'), (-1, 'descending, type -1')):
+        try:
+            outs = _runs(model, 'MATCH', lambda mt=mt: [Sym('int', 'X'), ListV([Sym('int', 'A0'), Sym('int', 'A1'), Sym('int', 'A2')]), Const(mt)])
+        except Unmodelled as e:
+            res.ob('R6', 'MATCH', label, True, 'undecided: %s' % e)
+            continue
+        if any(o.imprecise for o in outs):
+            res.ob('R6', 'MATCH', label, True, 'undecided (unmodelled construct)')
+            continue
+
+        def rank(name, p):
+            # position on a common scale: items at 1, 3, 5 (in array order), x at p
+            return p if name == 'X' else 2 * int(name[1]) + 1
+
+        def holds(atom, p):
+            """truth of a comparison atom in world p (None = not about the items/x: free)"""
+            if not (isinstance(atom, Atom) and atom.op in ('lt', 'gt', 'le', 'ge', 'eq', 'ne') and len(atom.args) == 2):
+                return None
+            a, b = atom.args
+            if not (isinstance(a, Sym) and isinstance(b, Sym) and a.name in ('X', 'A0', 'A1', 'A2') and b.name in ('X', 'A0', 'A1', 'A2')):
+                return None
+            ra, rb = rank(a.name, p), rank(b.name, p)
+            # in the descending world a larger rank means a smaller value
+            va, vb = (ra, rb) if mt == 1 else (-ra, -rb)
+            return {'lt': va < vb, 'gt': va > vb, 'le': va <= vb, 'ge': va >= vb, 'eq': va == vb, 'ne': va != vb}[atom.op]
+        for p in range(7):
+            want = None if p == 0 else (p + 1) // 2        # position of the last item at or before x in array order
+            got = set()
+            for o in outs:
+                consistent = True
+                for (t, alt, s_) in o.notes:
+                    h = holds(s_, p)
+                    if h is not None and h != bool(alt):
+                        consistent = False
+                        break
+                if not consistent:
+                    continue
+                if o.kind == 'return' and isinstance(o.value, Const):
+                    got.add(o.value.value)
+                elif o.kind == 'return' and isinstance(o.value, Err):
+                    got.add(o.value.name)
+                else:
+                    got.add('%s %r' % (o.kind, o.value))
+            n += 1
+            exp = NA if want is None else want
+            ok = got == set([exp])
+            where = ['x before every item', 'x = item 1', 'x between items 1 and 2', 'x = item 2', 'x between items 2 and 3', 'x = item 3', 'x after every item'][p]
+            res.ob('R6', 'MATCH', {'array': label, 'world': where, 'expected': exp}, ok, 'got %s' % sorted(map(str, got)))
+            if not ok:
+                res.violation('R6', 'function:MATCH:sorted-%s' % ('ascending' if mt == 1 else 'descending'), m.where(f),
+                              'MATCH(x, {three distinct items, %s}) with %s (in array order) must give %s; the code gives %s'
+                              % (label, where, 'the position %d' % want if want else '#N/A', sorted(map(str, got))),
+                              case={'array': label, 'world': where}, func=f.name)
+    res.soft_floor('MATCH order-type worlds examined', n, 14)
 
 
 def _fmt(idx):
